@@ -1,3 +1,2 @@
 SPECIFICATION Spec
-INVARIANT NoBad
 CHECK_DEADLOCK FALSE
